@@ -108,7 +108,7 @@ def worker_main(argv: list[str]) -> int:
         try:
             r = mod.run_case(case)
         except BaseException as exc:  # harness failure: never a verdict on asphalt
-            if isinstance(exc, KeyboardInterrupt):
+            if isinstance(exc, KeyboardInterrupt) and "injected" not in str(exc):
                 raise
             res["errors"].append(
                 {"idx": idx, "error": "".join(traceback.format_exception(exc))[-3000:], "case": case}
